@@ -187,7 +187,7 @@ def panic_signature(rec):
     phase = p.split(":")[0].replace(" ", "-")
     if phase == "crash" and depth(rec) >= 1000:
         # the process died (stack overflow) while the walkers named in `small` ran on the small stack
-        return "C17:crash.depth>=1000." + "+".join(sorted(rec.get("small", ["adjust", "build", "toc"])))
+        return "C17:crash.depth>=1000." + "+".join(sorted(rec.get("small") or ["main"]))
     if phase == "build_outline" and "overflow" in p and exhausted(rec):
         return "C17:panic.build_outline.ids-exhausted"
     return "C17:panic." + phase
@@ -298,12 +298,10 @@ def negative_controls_chain(rec):
 
 # ------------------------------------------------------------------ the check
 def replay_fmts(c):
-    """object numbers left for saving: the xref-stream format takes one and Size one more; a table with
-    object numbers near 2^32 would have that many lines, so such documents are saved in the stream format only"""
-    if c["room"] == NOROOM:
-        return ["table", "stream"]
-    slack = c["room"] - (1 + 2 * len(c["adds"])) - c["post"] - (1 if c["link"] == "new" else 0)
-    return ["stream"] if slack >= 3 else []
+    """Documents whose object numbers lie near 2^32 are not saved in the replay: lopdf needs about 10 s per save +
+    load of such a file (its xref writer / reader walk the whole number range), a table would even have 2^32 lines.
+    Two such documents are saved and reloaded (xref stream) in the recorded set."""
+    return ["table", "stream"] if c["room"] == NOROOM else []
 
 
 def run(tier):
@@ -321,13 +319,20 @@ def run(tier):
     w = workdir("c17" + SFX)
     quick = tier == "quick"
     # ---------------- (M) + (G): model checking, generation   (independent of /repo)
-    cfgs = (["MC_Outline_quick.cfg", "MC_Outline_quick4.cfg"] if quick else ["MC_Outline_thorough.cfg"]) + REPAIRED
+    mains = ["MC_Outline_quick.cfg", "MC_Outline_quick4.cfg"] if quick else ["MC_Outline_thorough.cfg"]
+    # all TLC jobs of this phase are independent of each other and of /repo: run them side by side
+    jobs = [(cfg, dict(workers=4 if quick else 12, coverage=True, xmx="4g" if quick else "8g")) for cfg in mains] \
+        + [(cfg, dict(workers=2, xmx="2g")) for cfg in REPAIRED] \
+        + [(cfg, dict(workers=1, xmx="1g", allow_violation=True)) for cfg, _ in CONTROLS]
+    with ThreadPoolExecutor(max_workers=len(jobs)) as ex:
+        futs = [ex.submit(tlc, "MC_Outline.tla", cfg, timeout=3000, name=os.path.splitext(cfg)[0] + SFX, **kw) for cfg, kw in jobs]
+        runs = {}
+        for (cfg, _), f in zip(jobs, futs):
+            runs[cfg] = f.result()           # a ToolError of any job propagates
     seen, cases = set(), []
-    for cfg in cfgs:
-        main = cfg not in REPAIRED
-        r = tlc("MC_Outline.tla", cfg, workers=4 if quick else 16, coverage=main, timeout=3000, xmx="4g" if quick else "8g",
-                name=os.path.splitext(cfg)[0] + SFX)
-        if main:
+    for cfg in mains + REPAIRED:
+        r = runs[cfg]
+        if cfg in mains:
             vlib.require_coverage(r, ACTIONS)
         chk.add_tlc(r)
         for c in r.tagged("REPLAY"):
@@ -351,9 +356,8 @@ def run(tier):
             sorted(need - have), sorted(variants), sorted(gen_dests), gen_refused, gen_tight))
     # controls of the model itself: "as the code is" must be refuted in each dimension by the named property
     for cfg, prop in CONTROLS:
-        rn = tlc("MC_Outline.tla", cfg, workers=1, allow_violation=True, name=os.path.splitext(cfg)[0] + SFX)
-        if rn.violation != prop:
-            raise vlib.ToolError("model control %s: expected %s to be violated, TLC said %s" % (cfg, prop, rn.violation))
+        if runs[cfg].violation != prop:
+            raise vlib.ToolError("model control %s: expected %s to be violated, TLC said %s" % (cfg, prop, runs[cfg].violation))
         chk.extra["model_controls_rejected"] = chk.extra.get("model_controls_rejected", 0) + 1
     # ---------------- replay into lopdf
     cin, cout = os.path.join(w, "gen.ndjson"), os.path.join(w, "gen.out.ndjson")
@@ -423,7 +427,7 @@ def run(tier):
     got_dests = {rec.get("dests") for rec in recs if rec.get("cls") == "dests"}
     rooms = [rec for rec in recs if rec.get("cls") == "ids"]
     if want_deep - got_deep or got_dests != set(DESTS) or not any(exhausted(r) for r in rooms) \
-            or not any(room(r) == 1 + 2 * nbook(r) for r in rooms) or not any(room(r) > 1 + 2 * nbook(r) + 3 for r in rooms):
+            or not any(room(r) == 1 + 2 * nbook(r) for r in rooms) or (not quick and not any(r["fmts"] for r in rooms)):
         chk.deferred.append("vacuous trace set: chains missing %s, destination tables %s, rooms %s" % (
             sorted(want_deep - got_deep), sorted(x for x in got_dests if x), [room(r) for r in rooms]))
     chk.extra["recorded_runs"] = len(recs)
